@@ -428,10 +428,12 @@ func (s *socket) clearTransport() {
 // Possible reasons: `ping timeout`, `client error`, `parse error`,
 // `transport error`, `server close`, `transport close`
 func (s *socket) OnClose(reason string, description ...error) {
-	if s.ReadyState() != "closed" {
+	// test and set in one step: two close causes racing each other (ping timeout,
+	// transport error, forced close...) must not both run the close sequence
+	if previous, _ := s.readyState.Swap("closed").(string); previous != "closed" {
 		description = append(description, nil)
 
-		s.SetReadyState("closed")
+		socket_log.Debug("readyState updated from %s to %s", previous, "closed")
 
 		// clear timers
 		utils.ClearTimeout(s.pingIntervalTimer.Load())
